@@ -822,14 +822,96 @@ fn lifecycle_scenario(idx: u64, r: &mut Rng, l: &mut Local) {
     if l.samples.len() < 2 { l.sample(json!({"driver": "threaded", "script": script, "events": evs})); }
 }
 
+/// The same lifecycle corroboration on the real tokio client. Listener callbacks are spawned as tasks
+/// in the order the events are produced; on a current-thread runtime tasks spawned from the runtime
+/// thread are run first-in first-out, so here (and only here) the listener order is meaningful.
+fn tokio_lifecycle_scenario(idx: u64, r: &mut Rng, l: &mut Local) {
+    let v5 = r.chance(2, 3);
+    let hub = Arc::new(Hub { pipes: Mutex::new(Vec::new()), seed: r.next_u64(), v5, plan: Mutex::new(Rng::new(r.next_u64())), refuse_pct: *r.pick(&[0u64, 30, 60]), fault_pct: *r.pick(&[0u64, 30, 60]), inbound: 0 });
+    let rt = match tokio::runtime::Builder::new_current_thread().enable_all().build() { Ok(rt) => rt, Err(_) => return };
+    let mut cs = ConnectSpec::default();
+    cs.client_id = Some("tlife".into());
+    cs.keep_alive = Some(1200);
+    let copts = client_options(r, v5);
+    let events: Arc<Mutex<Vec<&'static str>>> = Arc::new(Mutex::new(Vec::new()));
+    let ev2 = events.clone();
+    let replay = json!({"kind": "real-driver-lifecycle", "driver": "tokio", "index": idx});
+    let n = r.range(1, 6);
+    let mut requests: Vec<(u64, u64)> = Vec::new();
+    for _ in 0..n { requests.push((r.range(0, 40), r.below(4))); }
+    let hub2 = hub.clone();
+    let handle = rt.handle().clone();
+    let ev3 = events.clone();
+    let (script, last_is_stop, stop_observed) = rt.block_on(async move {
+        let hub3 = hub2.clone();
+        let factory: Box<dyn Fn() -> std::pin::Pin<Box<dyn std::future::Future<Output = Result<MemStream, GneissError>> + Send>> + Send + Sync> = Box::new(move || { let h = hub3.clone(); Box::pin(async move { h.connect() }) });
+        let client = new_tokio_client(copts, build_connect_options(&cs), TokioOptions::builder(handle).build(), factory);
+        let listener: ClientEventListener = Arc::new(move |ev: Arc<ClientEvent>| {
+            let name = match &*ev { ClientEvent::ConnectionAttempt(_) => "Attempt", ClientEvent::ConnectionSuccess(_) => "Success", ClientEvent::ConnectionFailure(_) => "Failure", ClientEvent::Disconnection(_) => "Disconnection", ClientEvent::Stopped(_) => "Stopped", _ => return };
+            ev2.lock().unwrap().push(name);
+        });
+        let mut script: Vec<&'static str> = Vec::new();
+        if client.start(Some(listener)).is_err() { return (script, false, true); }
+        script.push("start");
+        let mut last_is_stop = false;
+        for (pause, what) in requests {
+            // 0..39 scheduler turns, every eighth of them a real 1 ms timer
+            for i in 0..pause { if i % 8 == 7 { tokio::time::sleep(Duration::from_millis(1)).await; } else { tokio::task::yield_now().await; } }
+            match what {
+                0 => { let _ = client.start(None); script.push("start"); last_is_stop = false; }
+                1 => { let _ = client.stop(None); script.push("stop"); last_is_stop = true; }
+                2 => { let _ = client.stop(Some(StopOptions::builder().with_disconnect_packet(build_disconnect(&DisconnectSpec::default())).build())); script.push("stop-with-disconnect"); last_is_stop = true; }
+                _ => { let f = client.publish(build_publish(&PublishSpec { topic: "l/c".into(), qos: 1, payload: Some(vec![1, 2, 3]), ..Default::default() }), None); drop(f); script.push("publish"); }
+            }
+        }
+        let mut stop_observed = true;
+        if last_is_stop {
+            let deadline = Instant::now() + Duration::from_secs(4);
+            stop_observed = false;
+            while Instant::now() < deadline {
+                if ev3.lock().unwrap().last() == Some(&"Stopped") { stop_observed = true; break; }
+                tokio::time::sleep(Duration::from_millis(1)).await;
+            }
+        }
+        let _ = client.close();
+        tokio::time::sleep(Duration::from_millis(5)).await;
+        (script, last_is_stop, stop_observed)
+    });
+    rt.shutdown_timeout(Duration::from_millis(200));
+    l.count("c12.real_tokio_histories");
+    if last_is_stop { l.count("c12.real_tokio_stop_waits"); }
+    let evs = events.lock().unwrap().clone();
+    l.add("c12.real_tokio_events", evs.len());
+    let mut st = 0u8;
+    for (i, e) in evs.iter().enumerate() {
+        let ok = match (st, *e) {
+            (0, "Attempt") => { st = 1; true }
+            (1, "Failure") => { st = 0; true }
+            (1, "Success") => { st = 2; true }
+            (2, "Disconnection") => { st = 0; true }
+            (0, "Stopped") => true,
+            _ => false,
+        };
+        if !ok {
+            l.violation("C12.D1-real-driver-event-stream-malformed", &[("driver", "tokio".into()), ("state", st.to_string()), ("event", e.to_string())], format!("event #{} {} while in state {} (script {:?}, events {:?})", i, e, st, script, &evs[..usize::min(evs.len(), 30)]), replay.clone());
+            break;
+        }
+    }
+    if last_is_stop && !stop_observed {
+        l.violation("C12.D2-real-driver-stop-did-not-stop", &[("driver", "tokio".into()), ("last_request", script.last().copied().unwrap_or("").to_string())], format!("no Stopped event within 4 s after the final stop request (script {:?}, events {:?})", script, &evs[..usize::min(evs.len(), 30)]), replay.clone());
+    }
+    l.nontrivial(crate::rng::fnv(format!("tokio|{:?}|{:?}", script, evs).as_bytes()));
+    if l.samples.len() < 2 { l.sample(json!({"driver": "tokio", "script": script, "events": evs})); }
+}
+
 pub fn c12_real_driver_report(tier: &str, seed: u64) -> crate::report::Report {
     let quick = tier != "thorough";
     let plan = FuzzPlan {
         id: "C12", level: "exploration", cases: if quick { 1_200 } else { 30_000 },
-        rule: "corroboration on the real threaded client (public API, scripted transport with refused connections and read/write faults): random start / stop / stop-with-DISCONNECT / publish requests with sub-millisecond pauses; the lifecycle events seen by a listener must follow the regular language, and a final stop must be followed by Stopped within a generous wall-clock bound".into(),
+        rule: "corroboration on the real threaded and tokio clients (public API, the tokio one on a current-thread runtime where listener tasks run in spawn order; scripted transport with refused connections and read/write faults): random start / stop / stop-with-DISCONNECT / publish requests with sub-millisecond pauses; the lifecycle events seen by a listener must follow the regular language, and a final stop must be followed by Stopped within a generous wall-clock bound".into(),
         assumptions: vec!["the wall-clock bound (4 s) is corroboration only; the logical stop rule is the simulator's".into()],
-        gates: vec![("c12.real_threaded_histories", if quick { 800 } else { 20_000 })],
+        gates: vec![("c12.real_threaded_histories", if quick { 400 } else { 10_000 }), ("c12.real_tokio_histories", if quick { 400 } else { 10_000 })],
         budget_s: if quick { 600 } else { 3000 },
     };
-    cases_report(plan, tier, seed, move |idx, r, l| lifecycle_scenario(idx, r, l))
+    cases_report(plan, tier, seed, move |idx, r, l| if idx % 2 == 0 { lifecycle_scenario(idx, r, l) } else { tokio_lifecycle_scenario(idx, r, l) })
 }
